@@ -523,6 +523,85 @@ func main() {
 	})
 	sort.Strings(goStmts)
 
+	// sql-parser: in each Parser<Dialect> function the parse call and `if err != nil { return err }` come before any
+	// call that has the receiver as receiver or argument (i.e. before the first edit of the model)
+	type pbe struct {
+		fn string
+		ok bool
+	}
+	var parseFirst []pbe
+	for _, f := range []struct{ file, fn string }{{"sql-parser/mysql.go", "ParserMysql"}, {"sql-parser/postgresql.go", "ParserPostgresql"}, {"sql-parser/sqlite.go", "ParserSqlite"}} {
+		file, err := parser.ParseFile(fset, filepath.Join(*repo, f.file), nil, 0)
+		if err != nil {
+			fail("parse %s: %v", f.file, err)
+		}
+		found := false
+		for _, d := range file.Decls {
+			fn, ok := d.(*ast.FuncDecl)
+			if !ok || fn.Name.Name != f.fn || fn.Recv == nil || len(fn.Recv.List[0].Names) != 1 {
+				continue
+			}
+			found = true
+			recv := fn.Recv.List[0].Names[0].Name
+			usesRecv := func(n ast.Node) bool {
+				uses := false
+				ast.Inspect(n, func(x ast.Node) bool {
+					call, ok := x.(*ast.CallExpr)
+					if !ok {
+						return true
+					}
+					if sel, ok := call.Fun.(*ast.SelectorExpr); ok {
+						if id, ok := sel.X.(*ast.Ident); ok && id.Name == recv {
+							uses = true
+						}
+						if inner, ok := sel.X.(*ast.SelectorExpr); ok {
+							if id, ok := inner.X.(*ast.Ident); ok && id.Name == recv {
+								uses = true
+							}
+						}
+					}
+					for _, a := range call.Args {
+						if id, ok := a.(*ast.Ident); ok && id.Name == recv {
+							uses = true
+						}
+					}
+					return true
+				})
+				return uses
+			}
+			okShape := false
+			sawParse := false
+			for _, st := range fn.Body.List {
+				if ifs, ok := st.(*ast.IfStmt); ok && sawParse {
+					if be, ok := ifs.Cond.(*ast.BinaryExpr); ok && be.Op == token.NEQ {
+						if id, ok := be.X.(*ast.Ident); ok && id.Name == "err" && len(ifs.Body.List) == 1 {
+							if rs, ok := ifs.Body.List[0].(*ast.ReturnStmt); ok && len(rs.Results) == 1 {
+								if rid, ok := rs.Results[0].(*ast.Ident); ok && rid.Name == "err" {
+									okShape = true
+								}
+							}
+						}
+					}
+					break
+				}
+				if usesRecv(st) {
+					break
+				}
+				if as, ok := st.(*ast.AssignStmt); ok {
+					for _, l := range as.Lhs {
+						if id, ok := l.(*ast.Ident); ok && id.Name == "err" {
+							sawParse = true
+						}
+					}
+				}
+			}
+			parseFirst = append(parseFirst, pbe{f.fn, okShape})
+		}
+		if !found {
+			fail("function %s not found in %s", f.fn, f.file)
+		}
+	}
+
 	var b strings.Builder
 	b.WriteString("/-\n  GENERATED by /verif/harness/cmd/factgen from /repo's working tree — do not edit.\n")
 	b.WriteString("  Everything in the code that is *data*: statement templates per dialect, string constants, the action enum,\n  package-level variables with the functions that assign them, `go` statements.\n-/\n")
@@ -581,6 +660,11 @@ func main() {
 		qg = append(qg, leanStr(g))
 	}
 	fmt.Fprintf(&b, "/-- functions containing a `go` statement -/\ndef goStatements : List String := [%s]\n\n", strings.Join(qg, ", "))
+	qp := []string{}
+	for _, x := range parseFirst {
+		qp = append(qp, fmt.Sprintf("(%s, %v)", leanStr(x.fn), x.ok))
+	}
+	fmt.Fprintf(&b, "/-- (Parser function, the parse call and its `return err` precede the first edit of the model) -/\ndef parseBeforeEdit : List (String × Bool) := [%s]\n\n", strings.Join(qp, ", "))
 	b.WriteString("end Sqlize.Facts\n")
 
 	if *out == "" {
